@@ -54,8 +54,10 @@ class _InMemoryConsumer(ConsumerT):
     async def finish(self) -> None:
         await asyncio.sleep(0)
         self._started = False
-        while self._queue.processing:
-            self._queue.simple.put_nowait(self._queue.processing.pop())
+        # give back only what this consumer has taken, other consumers may still be running
+        for msg in list(self._queue.processing):
+            if self._queue.origins.get(msg.key.id_, (None, None, None))[2] is self:
+                self._queue.give_back(msg)
         await asyncio.sleep(0)
 
     def __update_delayed(self) -> None:
@@ -79,7 +81,7 @@ class _InMemoryConsumer(ConsumerT):
         if self.topics and msg.key.topic not in self.topics:  # topics don't match
             self._queue.simple.put_nowait(msg)
             return None
-        self._queue.origins[msg.key.id_] = (self.category, None)
+        self._queue.origins[msg.key.id_] = (self.category, None, self)
         return msg
 
     def __consume_delayed(self) -> Message | None:
@@ -92,7 +94,7 @@ class _InMemoryConsumer(ConsumerT):
             msg = self._queue.delayed.pop(soonest)[0]
         else:
             msg = self._queue.delayed[soonest].pop(0)
-        self._queue.origins[msg.key.id_] = (self.category, soonest)
+        self._queue.origins[msg.key.id_] = (self.category, soonest, self)
         return msg
 
     def __consume_dead(self) -> Message | None:
@@ -100,7 +102,7 @@ class _InMemoryConsumer(ConsumerT):
             return None
 
         msg = self._queue.dead.pop(0)
-        self._queue.origins[msg.key.id_] = (self.category, None)
+        self._queue.origins[msg.key.id_] = (self.category, None, self)
         return msg
 
     async def consume(self) -> tuple[RoutingKeyT, str, ParametersT]:
